@@ -2,4 +2,4 @@ From Coq Require Import Extraction ExtrOcamlBasic.
 From Cddl Require Import Grammar.C03Model.
 Extraction Language OCaml.
 (* path relative to the directory make runs in (/verif/coq) *)
-Extraction "../oracle/gen/grammar_model.ml" cddl_tree cddl_shape spec_verdict lenient_verdict rfc_verdict variant_verdict.
+Extraction "../oracle/gen/grammar_model.ml" cddl_tree cddl_shape spec_verdict lenient_verdict rfc_verdict variant_verdict token_sweep_verdict.
